@@ -29,4 +29,7 @@ theorem tie_startFoldFrom : startFoldFrom = .ge := rfl
 theorem tie_scanRunsWhen : scanRunsWhen = .eq := rfl
 theorem tie_scanFoldFuture : scanFoldFuture = .gt := rfl
 
+/-- `evaluate_impl`: a graph evaluation that failed is never taken for a paused one (F1 repaired) -/
+theorem tie_resumeChecksFailed : resumeChecksFailed = true := rfl
+
 end HgVerif.Tie
